@@ -174,6 +174,12 @@ CheckClass(M, TS, ev) ==
   ELSE CASE ev.got = "T" -> IF ref = "T" THEN <<"OK_T", ref>>
                             ELSE IF ref = "F" /\ MixedCondPair(M, TS, ev.ctx, ev.o, ev.r, ev.u) THEN <<"KF_Weight2MixedCondSameObject", ref>>
                             ELSE IF ref = "F" /\ (PlainOfRelType(M, TS, ev.u) \/ PlainRelTuple(M, TS, ev.o, ev.r)) THEN <<"KF_PlainSubjectOfRelationalType", ref>>
+                            \* KF-2 below an exclusion: the swallowed error sits in the subtract branch, so the
+                            \* request is granted instead of denied (thorough tier, seed 2: doc#blocked: viewer but
+                            \* not (viewer from parent or this), doc:1#parent@folder:3 passes, doc:1#parent@doc:1 with
+                            \* c2 cannot be evaluated)
+                            ELSE IF ref = "E" /\ CondSwallowed(M, TS, ev.ctx, ev.o, ev.r) /\ (\E g \in GoalKeys(M, TS, ev.o, ev.r) \cup {<<ev.o, ev.r>>} : HasRel(M, g[1].t, g[2]) /\ \E x \in SubRw(Rw(M, g[1].t, g[2])) : x.k = "diff")
+                            THEN <<"KF_CondSwallowedBySibling", ref>>
                             ELSE <<"BAD_ALLOWED", ref>>
          [] ev.got = "F" -> IF ref = "F" THEN <<"OK_F", ref>>
                             ELSE IF ref = "T" THEN
